@@ -11,6 +11,8 @@ src: strings.c
 enforce: spiftool_downcase_str
 backend: sat
 loops: 1
+native: strhelp
+native_includes: strings.c
 */
 /*@unit
 name: upcase_str
@@ -19,6 +21,8 @@ src: strings.c
 enforce: spiftool_upcase_str
 backend: sat
 loops: 1
+native: strhelp
+native_includes: strings.c
 */
 /*@unit
 name: safe_str
@@ -27,6 +31,8 @@ src: strings.c
 enforce: spiftool_safe_str
 backend: sat
 loops: 1
+native: strhelp
+native_includes: strings.c
 */
 #include "vprelude.h"
 #include "strings.h"
